@@ -458,11 +458,31 @@ class Explorer:
                             state.vars.pop(k, None)
         return state
 
+    def _mentions_tracked(self, expr, state):
+        for n in ast.walk(expr):
+            if isinstance(n, (ast.Name, ast.Attribute, ast.Subscript, ast.Call)):
+                t = ast.unparse(n)
+                if t in state.vars or self.sem.dom(t, state) is not None:
+                    return True
+        return False
+
     def s_Assign(self, st, state):
         outs = []
         for o in self.simple(st, state):
             if o.kind == NEXT:
                 for val, s2 in self._split_ifexp(st.value, o.state):
+                    # flag = <boolean expression over tracked values>: fork on its truth and remember it
+                    if len(st.targets) == 1 and isinstance(st.targets[0], ast.Name) and isinstance(val, (ast.BoolOp, ast.Compare)) or (
+                            len(st.targets) == 1 and isinstance(st.targets[0], ast.Name) and isinstance(val, ast.UnaryOp) and isinstance(val.op, ast.Not)):
+                        if self._mentions_tracked(val, s2) and self.sem.domain(st.targets[0].id) is None:
+                            branches = self.test(val, s2)
+                            if all(isinstance(t, bool) for t, _ in branches):
+                                for truth, s3 in branches:
+                                    s4 = s3.copy()
+                                    s4.vars[st.targets[0].id] = frozenset([truth])
+                                    s4.facts.pop("alias:" + st.targets[0].id, None)
+                                    outs.append(Outcome(NEXT, s4, None, st))
+                                continue
                     outs.append(Outcome(NEXT, self._assign_targets(st.targets, val, s2), None, st))
             else:
                 outs.append(o)
